@@ -27,7 +27,20 @@
                                          <keyhex> term <depth> <sd> <n> <hex64>*n ... end
                                          (SeekPath.seek_with, the mirror of Session::prove, on the opened image
                                           with the uploaded hash oracle; sd = stored pages on the key's page
-                                          path, n siblings root first) *)
+                                          path, n siblings root first)
+   imgreencode                        -> reencode FAIL <kind> <pn> <offset> per difference (kind = leaf | branch |
+                                         overflow | manifest; at most 8 offsets per page; offset 4096 = the page or
+                                         the expected page is not 4096 bytes long; offset 4097 = page not readable /
+                                         cells not readable), then
+                                         reencode note noncanon <bbn pn> <count> per branch page with separators of
+                                         non-canonical stored length (information only), then
+                                         reencode ok|bad leaves=.. branches=.. overflow=.. manifest=1 bytes_compared=..
+                                         undef_nonzero=.. noncanon=.. ... end
+                                         (NodeCodec.v: every leaf, branch and overflow page and the manifest of the
+                                          decoded image is ENCODED again from its decoded content and compared with
+                                          the file on the bytes the builders define; undef_nonzero = non-zero bytes in
+                                          the undefined regions, noncanon = separators whose stored length is not
+                                          separator_len(key)) *)
 
 open BinNums
 
@@ -397,6 +410,72 @@ let handle (toks : string list) : string option =
           in
           Some (lines ((if SeekPath.wf_root img then "wf_root ok" else "wf_root FAIL") :: Stdlib.List.map one keys))
       | Image.Err _ -> Some (lines [ "undecodable" ]))
+  | [ "imgreencode" ] -> (
+      match image (), !cur_files with
+      | Image.Ok img, Some fs ->
+          let out = ref [] in
+          let bytes = ref 0 and stale = ref 0 and noncanon = ref 0 in
+          let stale_by : (string, int) Hashtbl.t = Hashtbl.create 4 in
+          let nl = ref 0 and nb = ref 0 and no = ref 0 in
+          let bad = ref false in
+          let failline kind pn off =
+            bad := true;
+            out := Printf.sprintf "reencode FAIL %s %s %s" kind (dec_of_n pn) (dec_of_n off) :: !out
+          in
+          let cmp kind pn segs real =
+            let (offs, c), s = NodeCodec.compare_segs segs real in
+            bytes := !bytes + int_of_n c;
+            stale := !stale + int_of_n s;
+            Hashtbl.replace stale_by kind ((try Hashtbl.find stale_by kind with Not_found -> 0) + int_of_n s);
+            Stdlib.List.iteri (fun j off -> if j < 8 then failline kind pn off) offs
+          in
+          let unreadable = n_of_int 4097 in
+          Stdlib.List.iter
+            (fun (l : Image.leaf) ->
+              incr nl;
+              (match fs.Image.rd_ln l.Image.l_pn with
+               | Some real -> cmp "leaf" l.Image.l_pn (NodeCodec.reencode_leaf l) real
+               | None -> failline "leaf" l.Image.l_pn unreadable);
+              Stdlib.List.iter
+                (fun (e : Image.entry) ->
+                  Stdlib.List.iter
+                    (fun (pn, segs) ->
+                      incr no;
+                      match fs.Image.rd_ln pn with
+                      | Some real -> cmp "overflow" pn segs real
+                      | None -> failline "overflow" pn unreadable)
+                    (NodeCodec.reencode_overflow e))
+                l.Image.l_entries)
+            img.Image.i_leaves;
+          Stdlib.List.iter
+            (fun (b : Image.branch) ->
+              incr nb;
+              match fs.Image.rd_bbn b.Image.b_pn with
+              | Some real -> (
+                  match NodeCodec.reencode_branch b real with
+                  | Some (segs, nc) ->
+                      noncanon := !noncanon + int_of_n nc;
+                      if int_of_n nc > 0 then
+                        out := Printf.sprintf "reencode note noncanon %s %s" (dec_of_n b.Image.b_pn) (dec_of_n nc) :: !out;
+                      cmp "branch" b.Image.b_pn segs real
+                  | None -> failline "branch" b.Image.b_pn unreadable)
+              | None -> failline "branch" b.Image.b_pn unreadable)
+            img.Image.i_branches;
+          (match fs.Image.rd_meta N0 with
+           | Some real ->
+               cmp "manifest" N0 (NodeCodec.reencode_manifest img.Image.i_manifest) real
+           | None -> failline "manifest" N0 unreadable);
+          Stdlib.List.iter (fun f -> Hashtbl.reset f.cache) !handles;
+          let summary =
+            let sb k = try Hashtbl.find stale_by k with Not_found -> 0 in
+            Printf.sprintf
+              "reencode %s leaves=%d branches=%d overflow=%d manifest=1 bytes_compared=%d undef_nonzero=%d noncanon=%d \
+               undef_nonzero_leaf=%d undef_nonzero_branch=%d undef_nonzero_overflow=%d undef_nonzero_manifest=%d"
+              (if !bad then "bad" else "ok") !nl !nb !no !bytes !stale !noncanon (sb "leaf") (sb "branch") (sb "overflow")
+              (sb "manifest")
+          in
+          Some (lines (Stdlib.List.rev (summary :: !out)))
+      | _ -> Some (lines [ "reencode undecodable" ]))
   | [ "imgstats" ] -> (
       match image () with
       | Image.Ok img ->
